@@ -29,6 +29,7 @@ EPS_SI = 1e-6
 EPS_CAP = 1e-8
 LN10 = math.log(10.0)
 KEY_ALT = "add-formula-present-undersaturated"
+KEY_REL = "related-exchanger-ignores-predissolved-amount"
 
 
 def hexs(s):
@@ -191,7 +192,7 @@ def valid_phase(moles, d, initial, opt):
 def direct_oracle(spec, c):
     """evaluate the property statement on the implementation's own public output.  Returns (problems, stats, alt_problems)"""
     blocks = parse_blocks(c["lines"])
-    problems, alt = [], []
+    problems, alt, rel = [], [], []
     st = {"phase_states": {}, "calcs": 0, "ex": 0, "su": 0, "ss_ideal": 0, "ss_binary": 0, "dump_checked": 0}
     prev = {}          # amounts saved at the end of the previous simulation
     cur_sim, last_in_sim, last_step = None, {}, {}
@@ -266,8 +267,14 @@ def direct_oracle(spec, c):
             else:
                 x = spec["exchange"]["comps"][0]
                 ref = x["prop"] * R.get(f"equi:{x['phase']}", 0.0)
-                if abs(sx - ref) > EPS_CAP * max(ref, sx, prev.get(x["phase"], 0) * x["prop"]) * (st["calcs"] + 1) and ref > 1e-20:
-                    problems.append(f"block {b['k']}: exchanger related to {x['phase']} holds {sx!r} eq but proportion x moles = {ref!r}")
+                diff = sx - ref
+                if abs(diff) > EPS_CAP * max(ref, sx) and ref > 1e-20:
+                    # add_pp_assemblage dissolves up to 1e-10 mol of a phase into the solution before model() without
+                    # touching the exchanger that is related to it: the capacity stays prop*1e-10 eq too high per calculation
+                    known = x["prop"] * 1e-10 * st["calcs"] * 1.01 + EPS_CAP * max(ref, sx)
+                    msg = (f"block {b['k']}: exchanger related to {x['phase']} holds {sx!r} eq but proportion x moles = {ref!r} "
+                           f"(difference {diff!r} eq, proportion*1e-10 = {x['prop'] * 1e-10!r})")
+                    (rel if 0 <= diff <= known else problems).append(msg)
             last_step["sys:X"] = sx
         for k in capS:
             if "sys:" + k in R:
@@ -313,6 +320,7 @@ def direct_oracle(spec, c):
                                 problems.append(f"DUMP: target SI of {p['name']} is {fl[ks]} but {p['si']} was requested")
         except Exception as ex:   # the dump parser is not what is judged here
             st["dump_parse_error"] = str(ex)[:100]
+    st["rel"] = rel
     return problems, st, alt
 
 
@@ -429,6 +437,7 @@ def run(ctx):
     distinct = 0
     tie_broken = []
     alt_cases = []
+    rel_cases = []
     for i in ids:
         s, c = byid[i], results[i]
         hist["db"][s["db"]] = hist["db"].get(s["db"], 0) + 1
@@ -487,6 +496,8 @@ def run(ctx):
                 break
         elif alt or [r for r in vf if r[2] == "valid-alt"]:
             alt_cases.append(i)
+        if st["rel"] and not problems:
+            rel_cases.append((i, st["rel"]))
         if tf:
             tie_broken.append((i, tf[:5]))
     if alt_cases:
@@ -496,6 +507,11 @@ def run(ctx):
         vf = [r for r in rels.get(i, []) if r[0] == "V" and not r[4]]
         if alt:
             report_failure(ctx, exe, byid[i], results[i], vf, problems, alt, only_alt=True)
+    if rel_cases:
+        hist["related_exchanger_offset_cases"] = len(rel_cases)
+        i, msgs = rel_cases[0]
+        ctx.finding(KEY_REL, "EXCHANGE related to an equilibrium phase: " + msgs[0],
+                    {"spec": byid[i], "db": byid[i]["db"], "input": texts[i], "oracle": msgs[:5]})
     ctx.cov["input_distribution"] = hist
     ctx.cov["evaluations"] = nV + nT + nprobe
     ctx.cov["property_relations_evaluated"] = nV
@@ -565,6 +581,8 @@ def replay(ctx, data):
         ctx.violation("replayed input still violates the property: " + (problems[0] if problems else vf_main[0][2]), data)
     elif alt:
         ctx.finding(KEY_ALT, "replayed input: " + alt[0], data)
+    elif "spec" in data and st.get("rel"):
+        ctx.finding(KEY_REL, "replayed input: " + st["rel"][0], data)
     elif tf or pf:
         ctx.violation("replayed input: model/code correspondence still broken", data, found_input=False)
 
